@@ -27,9 +27,18 @@ type Scenario struct {
 	// run-time knobs (not part of the program)
 	Race bool `json:"race,omitempty"`
 	Reps int  `json:"reps,omitempty"`
+	// Launch > 0: the goroutines marked Via are not started by the main flow but by a chain of
+	// Launch intermediate threads ("launchers", flat functions, nested only in who spawns whom);
+	// every launcher returns at once – long before the senders and receivers it started are done –
+	// and the main flow gets the thread handles back as the launcher's result.
+	Launch      int      `json:"launch,omitempty"`
+	LaunchForms []string `json:"launch_forms,omitempty"` // per level: spawn | method | go (go only at level 1)
+	LaunchFirst bool     `json:"launch_first,omitempty"` // launcher started before the main flow's own spawns
 	// W, when set, makes this a "several goroutines wait for one thread" scenario (waiters.go);
 	// the channel fields above are then unused.
 	W *WaitSpec `json:"w,omitempty"`
+	// D, when set, makes this a "drain a buffered channel closed with values queued" scenario (drain.go).
+	D *DrainSpec `json:"d,omitempty"`
 }
 
 type ChanSpec struct {
@@ -52,6 +61,7 @@ type Gor struct {
 	Quota int    `json:"quota"` // counted receivers
 	Ret   string `json:"ret"`   // senders: list|int|str|errval|raise
 	Lag   int    `json:"lag"`   // yields before the first channel operation
+	Via   bool   `json:"via,omitempty"` // started by the launcher chain, not by the main flow
 }
 
 func (g Gor) iter() bool { return g.Style == "range" || g.Style == "rangekv" || g.Style == "in" }
@@ -183,6 +193,30 @@ func genScenario(r *mon.Rand, idx int, thorough bool) Scenario {
 	s.Order = r.Perm(len(s.Gors))
 	s.SDone = r.Intn(5)
 	s.RDone = r.Intn(5)
+	// launcher topologies (own stream: the other choices of the scenario stay what they were)
+	rl := r.Split("launch")
+	if rl.Chance(1, 3) {
+		s.Launch = rl.Range(1, 3)
+		for l := 0; l < s.Launch; l++ {
+			f := mon.Pick(rl, []string{"spawn", "method"})
+			if l == 0 && rl.Chance(1, 3) {
+				f = "go"
+			}
+			s.LaunchForms = append(s.LaunchForms, f)
+		}
+		s.LaunchFirst = rl.Bool()
+		all := rl.Chance(1, 2)
+		n := 0
+		for i := range s.Gors {
+			if all || rl.Bool() {
+				s.Gors[i].Via = true
+				n++
+			}
+		}
+		if n == 0 {
+			s.Gors[rl.Intn(len(s.Gors))].Via = true
+		}
+	}
 	return s
 }
 
@@ -273,7 +307,7 @@ func (s *Scenario) shape(ch int) string {
 func (s *Scenario) distinctKey(ch int) string {
 	sn, rc := s.gorsOf(ch, "send"), s.gorsOf(ch, "recv")
 	return fmt.Sprintf("S%dR%d|cap%d|%s|send=%s|recv=%s|forms=%s|P%d|%s", len(sn), len(rc), s.Chans[ch].Cap, s.Chans[ch].Mode,
-		styleSet(s, sn), styleSet(s, rc), formSet(s, append(append([]int{}, sn...), rc...)), s.Procs, s.Scope)
+		styleSet(s, sn), styleSet(s, rc), formSet(s, append(append([]int{}, sn...), rc...)), s.Procs, s.Scope) + s.launchKey()
 }
 
 // ---------------------------------------------------------------------------------------
@@ -311,6 +345,9 @@ func (s *Scenario) Render() string {
 	if s.W != nil {
 		return s.renderWaiters()
 	}
+	if s.D != nil {
+		return s.renderDrain()
+	}
 	b := &sb{}
 	b.ln("import errors")
 	if s.Scope == "func" {
@@ -336,10 +373,21 @@ func (s *Scenario) Render() string {
 		s.renderFunc(b, i)
 	}
 	// spawn
+	s.renderLaunchers(b)
 	b.ln("a1 := 0; a2 := 0; a3 := 0")
+	if s.Launch > 0 && s.LaunchFirst {
+		s.renderLaunchStart(b)
+	}
 	for _, i := range s.Order {
+		if s.Launch > 0 && s.Gors[i].Via {
+			continue
+		}
 		s.renderSpawn(b, i)
 	}
+	if s.Launch > 0 && !s.LaunchFirst {
+		s.renderLaunchStart(b)
+	}
+	s.renderLaunchJoin(b)
 	// collect senders
 	b.ln("sres := []")
 	ngo := 0
@@ -674,4 +722,96 @@ func (s *Scenario) renderSpawn(b *sb, i int) {
 	// the spawner reassigns its variables and makes an unrelated call immediately afterwards
 	b.ln("a1 = -1; a2 = -2; a3 = -3")
 	b.ln("noise(-4, -5, -6, -7)")
+}
+
+// viaHandles lists the goroutines started by the launcher chain that have a thread handle.
+func (s *Scenario) viaHandles() []int {
+	var out []int
+	for _, i := range s.Order {
+		g := s.Gors[i]
+		if g.Via && g.Form != "go" {
+			out = append(out, i)
+		}
+	}
+	return out
+}
+
+// renderLaunchers emits launchN … launch1 (deepest first, so that every name is defined before
+// it is used). launchK (K < N) starts launchK+1 as a thread and returns its handle without
+// waiting; launchN starts the goroutines and returns [[gid, handle], …] at once.
+func (s *Scenario) renderLaunchers(b *sb) {
+	if s.Launch == 0 {
+		return
+	}
+	for k := s.Launch; k >= 1; k-- {
+		if k == 1 {
+			b.ln("func launch1(lc) {")
+		} else {
+			b.ln("func launch%d() {", k)
+		}
+		b.ind++
+		if k == s.Launch {
+			b.ln("a1 := 0; a2 := 0; a3 := 0")
+			for _, i := range s.Order {
+				if s.Gors[i].Via {
+					s.renderSpawn(b, i)
+				}
+			}
+			var hs []string
+			for _, i := range s.viaHandles() {
+				hs = append(hs, fmt.Sprintf("[%d, t%d]", i+1, i+1))
+			}
+			b.ln("res := [%s]", strings.Join(hs, ", "))
+		} else {
+			if s.LaunchForms[k] == "method" {
+				b.ln("res := launch%d.spawn()", k+1)
+			} else {
+				b.ln("res := spawn(launch%d)", k+1)
+			}
+		}
+		if k == 1 {
+			b.ln("if lc != nil { lc <- res }")
+		}
+		b.ln("return res")
+		b.ind--
+		b.ln("}")
+	}
+}
+
+func (s *Scenario) renderLaunchStart(b *sb) {
+	switch s.LaunchForms[0] {
+	case "go":
+		b.ln("lc := chan(1)")
+		b.ln("go launch1(lc)")
+	case "method":
+		b.ln("lt := launch1.spawn(nil)")
+	default:
+		b.ln("lt := spawn(launch1, nil)")
+	}
+}
+
+// renderLaunchJoin waits for the launchers (they have returned long before their goroutines are
+// done) and binds the thread handles they hand back to the names the main flow uses.
+func (s *Scenario) renderLaunchJoin(b *sb) {
+	if s.Launch == 0 {
+		return
+	}
+	if s.LaunchForms[0] == "go" {
+		b.ln("lr := <-lc")
+	} else {
+		b.ln("lr := lt.wait()")
+	}
+	for k := 1; k < s.Launch; k++ {
+		b.ln("lr = lr.wait()")
+	}
+	for k, i := range s.viaHandles() {
+		b.ln("t%d := lr[%d][1]", i+1, k)
+	}
+}
+
+func (s *Scenario) launchKey() string {
+	if s.Launch == 0 {
+		return ""
+	}
+	return fmt.Sprintf("|launch%d:%s", s.Launch, strings.Join(s.LaunchForms, ">"))
 }
